@@ -76,6 +76,7 @@ fn body(p: &P) -> Result<(), String> {
     let mut xbs: Vec<(usize, crossbeam_channel::Receiver<u32>)> = Vec::new();
     for (i, (kind, _)) in p.routes.iter().enumerate() {
         let (tx, rx) = ipc::channel::<u32>().map_err(|e| e.to_string())?;
+        e1::inproc_point();
         match kind {
             Kind::Callback => proxy.add_route(rx.to_opaque(), callback(i, &rec)),
             Kind::Crossbeam => xbs.push((i, proxy.route_ipc_receiver_to_new_crossbeam_receiver(rx))),
@@ -92,6 +93,7 @@ fn body(p: &P) -> Result<(), String> {
     let racer = if p.racing_add {
         let (pr, rc) = (proxy.clone(), rec.clone());
         Some(std::thread::spawn(move || {
+            e1::inproc_point();
             pr.add_route(rrx.to_opaque(), callback(racing_route, &rc));
             drop(pr);
         }))
@@ -102,7 +104,9 @@ fn body(p: &P) -> Result<(), String> {
     let traffic = if p.traffic && !txs.is_empty() {
         let t = txs[0].clone();
         Some(std::thread::spawn(move || {
+            e1::inproc_point();
             let _ = t.send(21);
+            e1::inproc_point();
             let _ = t.send(22);
         }))
     } else {
@@ -116,12 +120,14 @@ fn body(p: &P) -> Result<(), String> {
             for _ in 1..n {
                 let pr = proxy.clone();
                 hs.push(std::thread::spawn(move || {
+                    e1::inproc_point();
                     pr.shutdown();
                     let s = CLOCK.fetch_add(1, Ordering::SeqCst);
                     drop(pr);
                     s
                 }));
             }
+            e1::inproc_point();
             proxy.shutdown();
             let mut t = CLOCK.fetch_add(1, Ordering::SeqCst);
             // "when shutdown returns ... every registered callback has been dropped so that
@@ -198,6 +204,7 @@ fn finish(
         h.join().map_err(|_| "[stop-panic] the add_route racer panicked".to_string())?;
         // a route offered after shutdown is dropped without ever being invoked
         let (t2, r2) = ipc::channel::<u32>().map_err(|e| e.to_string())?;
+        e1::inproc_point();
         proxy.add_route(r2.to_opaque(), callback(racing_route + 1, &rec));
         let _ = t2.send(1);
         drop(proxy);
@@ -256,6 +263,17 @@ pub fn scenarios(tier: Tier) -> Vec<Scenario> {
         cfg.post_points = true;
         // wide scenarios: every non-default choice counts as a deviation
         cfg.strict_deviations = p.routes.len() > 4;
+        // in-process build: every library operation is preceded by a harness point at which the
+        // choice among the *other* tasks is free; with three or more helper tasks those free choices
+        // multiply, so there every non-default choice counts
+        let helpers = match p.stop {
+            Stop::Shutdown(n) => n as usize - 1,
+            Stop::DropProxy => 0,
+        } + p.racing_add as usize + p.traffic as usize;
+        if cfg!(feature = "inproc") && helpers >= 2 {
+            cfg.strict_deviations = true;
+        }
+        cfg.yield_alts = cfg!(feature = "inproc") && !cfg.strict_deviations;
         v.push(Scenario::new(name, cfg, bound, move || body(&p)));
     };
     use Kind::*;
@@ -304,20 +322,23 @@ pub fn scenarios(tier: Tier) -> Vec<Scenario> {
     v
 }
 
-pub fn run(tier: Tier, _part: bool) -> i32 {
-    let mut rep = Report::new("C17", tier, "model_checking");
+pub fn run(tier: Tier, part_only: bool) -> i32 {
+    super::run_with_inproc("C17", tier, part_only, "model_checking", &run_all)
+}
+
+fn run_all(rep: &mut Report, tier: Tier) {
     let scs = scenarios(tier);
-    let tot = e1::run_scenarios(&mut rep, &scs, &e1::strict_judge, if tier.is_quick() { 40.0 } else { 3000.0 });
+    let tot = e1::run_scenarios(rep, &scs, &e1::strict_judge, if tier.is_quick() { 40.0 } else { 3000.0 });
     rep.set("deviation_bound_min", json!(tot.min_bound));
     rep.set("deviation_bound_max", json!(tot.max_bound));
     rep.set("evaluations", json!(tot.execs));
     rep.set("distinct_nontrivial", json!(tot.with_switch));
     rep.set("rule", json!("one evaluation = one complete schedule (<= bound deviations) of: 0-2 live routes (callback / crossbeam forwarding, optionally one message in flight), stopped by shutdown() from 1-2 tasks or by dropping the proxy, optionally racing an add_route from another task, followed by further sends on the old routes and a wait for quiescence; schedules are distinct by construction (the depth-first search never repeats a choice sequence) and a schedule counts as non-trivial when it contains at least one context switch; enumerated cases are distinct by construction"));
     rep.assume("'after the proxy has been dropped' is checked at quiescence (no task can run), as the statement gives no synchronisation point");
-    rep.finish()
 }
 
 pub fn replay(tier: Tier, v: &Value) -> i32 {
+    let v = if v.get("variant").is_some() { &v["case"] } else { v };
     let mut scs = scenarios(tier);
     scs.extend(scenarios(if tier.is_quick() { Tier::Thorough } else { Tier::Quick }));
     e1::replay(&scs, v)
